@@ -542,6 +542,27 @@ func treeCase(r *rand.Rand, base string, idx int, bin string) {
 		}
 		return nil
 	})
+	// quoted files are restored the way a user of the archive has to do it: by following the
+	// "unquote <name>" directives that txtar-c leaves in the archive comment
+	directives := map[string]bool{}
+	for _, l := range strings.Split(string(xt.Parse(arch.Bytes()).Comment), "\n") {
+		if n, ok := strings.CutPrefix(l, "unquote "); ok {
+			directives[n] = true
+		}
+	}
+	for n := range directives {
+		g, ok := got[n]
+		if !ok {
+			fail("unquote-directive-names-no-extracted-file", fmt.Sprintf("the archive comment says \"unquote %s\" but no such file was extracted; archive=%q", n, arch.String()), "")
+			continue
+		}
+		u, err := txtar.Unquote([]byte(g))
+		if err != nil {
+			fail("quoted-file-not-unquotable", fmt.Sprintf("%q: extracted %q: %v", n, g, err), "")
+			continue
+		}
+		got[n] = string(u)
+	}
 	var keys []string
 	for k := range want {
 		keys = append(keys, k)
@@ -554,13 +575,9 @@ func treeCase(r *rand.Rand, base string, idx int, bin string) {
 			fail("archived-file-missing-after-extract", fmt.Sprintf("%q (body %q) should be archived with flags %v but is missing after extraction; archive=%q", k, w[1:], flags, arch.String()), stderr.String())
 			continue
 		}
-		if w[0] == 'Q' {
-			u, err := txtar.Unquote([]byte(g))
-			if err != nil {
-				fail("quoted-file-not-unquotable", fmt.Sprintf("%q: extracted %q: %v", k, g, err), "")
-				continue
-			}
-			g = string(u)
+		if w[0] == 'Q' && !directives[k] {
+			fail("quoted-file-without-unquote-directive", fmt.Sprintf("%q had to be quoted, but the archive comment has no \"unquote %s\" line (directives: %v); archive=%q", k, k, directives, arch.String()), "")
+			continue
 		}
 		if g != w[1:] {
 			fail("extracted-content-differs", fmt.Sprintf("%q: extracted %q, original (with final newline) %q; archive=%q", k, g, w[1:], arch.String()), "")
